@@ -83,10 +83,6 @@ fn exec_img(case: &Value) -> Value {
     let via = gs(case, "via");
     let cull = case.get("cull").and_then(|v| v.as_i64()).unwrap_or(0);
     let ctx = mk_ctx(&json!({"cull": cull, "sort": 0, "test": 1, "cw": 1, "dw": 1}), Stats::new());
-    let mut fb = Framebuf {
-        color_buf: Buf2::new_from((bw, bh), std::iter::repeat(word(SENT).to_argb_u32())),
-        depth_buf: Buf2::new_from((bw, bh), std::iter::repeat(0.0f32)),
-    };
     let sh = Shader::new(|v: Vtx, _: ()| v, frag_shader);
     fn go(
         via: &str,
@@ -119,19 +115,68 @@ fn exec_img(case: &Value) -> Value {
         }
     }
     let _ = &sh;
-    let ok = if kind == "col" {
-        go(via, &faces, &verts, to_screen, &vp, (bw, bh), &mut fb.color_buf, &ctx)
-    } else {
-        go(via, &faces, &verts, to_screen, &vp, (bw, bh), &mut fb, &ctx)
-    };
-    // image
+    // win 0: the targets are the buffers themselves; 1: windows (MutSlice2) of larger parent buffers,
+    // row pitch > width; 2: windows of windows.  Afterwards the windows are copied out and the parent
+    // cells outside them must still hold their sentinels (outw counts those that do not).
+    let win = case.get("win").and_then(|v| v.as_i64()).unwrap_or(0);
     let sentw = word(SENT).to_argb_u32();
+    let (pl, pt, pr, pb) = if win == 0 { (0u32, 0u32, 0u32, 0u32) } else { (2, 1, 1, 2) };
+    let (pw, ph) = (bw + pl + pr, bh + pt + pb);
+    let mut cpar = Buf2::new_from((pw, ph), std::iter::repeat(sentw));
+    let mut zpar = Buf2::new_from((pw, ph), std::iter::repeat(0.0f32));
+    let ok = match win {
+        0 => {
+            if kind == "col" {
+                go(via, &faces, &verts, to_screen, &vp, (bw, bh), &mut cpar, &ctx)
+            } else {
+                let mut fb = Framebuf { color_buf: &mut cpar, depth_buf: &mut zpar };
+                go(via, &faces, &verts, to_screen, &vp, (bw, bh), &mut fb, &ctx)
+            }
+        }
+        1 => {
+            let c = cpar.slice_mut((pl..pl + bw, pt..pt + bh));
+            let z = zpar.slice_mut((pl..pl + bw, pt..pt + bh));
+            if kind == "col" {
+                let mut c = c;
+                go(via, &faces, &verts, to_screen, &vp, (bw, bh), &mut c, &ctx)
+            } else {
+                let mut fb = Framebuf { color_buf: c, depth_buf: z };
+                go(via, &faces, &verts, to_screen, &vp, (bw, bh), &mut fb, &ctx)
+            }
+        }
+        _ => {
+            // pane: everything but the first column and the last row; the window inside it
+            let mut cpane = cpar.slice_mut((1..pw, 0..ph - 1));
+            let mut zpane = zpar.slice_mut((1..pw, 0..ph - 1));
+            let c = cpane.slice_mut((pl - 1..pl - 1 + bw, pt..pt + bh));
+            let z = zpane.slice_mut((pl - 1..pl - 1 + bw, pt..pt + bh));
+            if kind == "col" {
+                let mut c = c;
+                go(via, &faces, &verts, to_screen, &vp, (bw, bh), &mut c, &ctx)
+            } else {
+                let mut fb = Framebuf { color_buf: c, depth_buf: z };
+                go(via, &faces, &verts, to_screen, &vp, (bw, bh), &mut fb, &ctx)
+            }
+        }
+    };
+    let mut outw = 0;
+    for y in 0..ph {
+        for x in 0..pw {
+            let inside = x >= pl && x < pl + bw && y >= pt && y < pt + bh;
+            if !inside && (cpar[[x, y]] != sentw || zpar[[x, y]].to_bits() != 0) {
+                outw += 1;
+            }
+        }
+    }
+    struct Img<'a>(&'a Buf2<u32>, &'a Buf2<f32>, u32, u32);
+    let fb = Img(&cpar, &zpar, pl, pt);
+    // image
     let img: Vec<Value> = (0..bh)
         .map(|y| {
             json!((0..bw)
                 .map(|x| {
-                    let c = fb.color_buf[[x, y]];
-                    let z = fb.depth_buf[[x, y]];
+                    let c = fb.0[[x + fb.2, y + fb.3]];
+                    let z = fb.1[[x + fb.2, y + fb.3]];
                     let cch = c != sentw;
                     let zch = z.to_bits() != 0;
                     let cls = if !cch && !zch { 0 } else if kind == "col" || (cch && zch) { 1 } else { 2 };
@@ -173,6 +218,7 @@ fn exec_img(case: &Value) -> Value {
     o.insert("panic".into(), json!(!ok as u8));
     o.insert("img".into(), json!(img));
     o.insert("fan".into(), json!(fan));
+    o.insert("outw".into(), json!(outw));
     e
 }
 
@@ -184,7 +230,7 @@ fn exec_safe(case: &Value) -> Value {
         // the viewport as a Camera of the buffer's size derives it from a request that may reach beyond
         // its frame: what must not be left is the intersection (case.vp)
         let r = |i: usize| rq[i].as_u64().unwrap() as u32;
-        match guard(|| Camera::new((bw, bh)).viewport((r(0)..r(2), r(1)..r(3))).viewport) {
+        match guard(|| Camera::new((bw, bh)).viewport((r(0)..r(2), r(1)..r(3))).mode(Mat4x4::<WorldToView>::identity()).viewport) {
             Some(m) => to_screen = m,
             None => {
                 let mut e = case.clone();
@@ -193,6 +239,7 @@ fn exec_safe(case: &Value) -> Value {
                 o.insert("nan".into(), json!(0));
                 o.insert("sbox".into(), json!([0, 0, 0, 0, 0]));
                 o.insert("tbox".into(), json!([0, 0, 0, 0, 0]));
+                o.insert("outw".into(), json!(0));
                 return e;
             }
         }
@@ -223,45 +270,67 @@ fn exec_safe(case: &Value) -> Value {
     let ctx = mk_ctx(&case["ctx"], Stats::new());
     let kind = gs(&case["ctx"], "kind");
     let sentw = word(SENT).to_argb_u32();
-    let mut fb = Framebuf {
-        color_buf: Buf2::new_from((bw, bh), std::iter::repeat(sentw)),
-        depth_buf: Buf2::new_from((bw, bh), std::iter::repeat(0.0f32)),
-    };
     let disc = gi(&case["ctx"], "disc") == 1;
     let sh = Shader::new(
         |v: Vtx, _: ()| v,
         move |f: Frag<f32>| if disc && (f.pos.x() as i64 + f.pos.y() as i64) % 2 == 0 { None } else { Some(word(f.var)) },
     );
     let mut sbox = [0i64; 5];
-    let ok;
-    {
-        let spans;
-        if kind == "col" {
-            let mut rec = SpanRec { inner: &mut fb.color_buf, spans: vec![] };
-            ok = guard(|| render(&faces, &verts, &sh, (), to_screen, &mut rec, &ctx)).is_some();
-            spans = rec.spans;
-        } else {
-            let mut rec = SpanRec { inner: &mut fb, spans: vec![] };
-            ok = guard(|| render(&faces, &verts, &sh, (), to_screen, &mut rec, &ctx)).is_some();
-            spans = rec.spans;
+    // targets: the buffers themselves, windows of larger parents, or windows of windows (see exec_img)
+    let win = case.get("win").and_then(|v| v.as_i64()).unwrap_or(0);
+    let (pl, pt, pr, pb) = if win == 0 { (0u32, 0u32, 0u32, 0u32) } else { (1, 2, 2, 1) };
+    let (pw, ph) = (bw + pl + pr, bh + pt + pb);
+    let mut cpar = Buf2::new_from((pw, ph), std::iter::repeat(sentw));
+    let mut zpar = Buf2::new_from((pw, ph), std::iter::repeat(0.0f32));
+    fn run<T: Target>(t: &mut T, f: &dyn Fn(&mut SpanRec<T>) -> bool) -> (bool, Vec<(usize, usize, usize)>) {
+        let mut rec = SpanRec { inner: t, spans: vec![] };
+        let ok = f(&mut rec);
+        (ok, rec.spans)
+    }
+    macro_rules! draw {
+        ($t:expr) => {
+            run($t, &|rec| guard(|| render(&faces, &verts, &sh, (), to_screen, rec, &ctx)).is_some())
+        };
+    }
+    let (ok, spans) = match (win, kind == "col") {
+        (0, true) => draw!(&mut cpar),
+        (0, false) => draw!(&mut Framebuf { color_buf: &mut cpar, depth_buf: &mut zpar }),
+        (1, col) => {
+            let mut c = cpar.slice_mut((pl..pl + bw, pt..pt + bh));
+            let z = zpar.slice_mut((pl..pl + bw, pt..pt + bh));
+            if col { draw!(&mut c) } else { draw!(&mut Framebuf { color_buf: c, depth_buf: z }) }
         }
-        for (y, x0, x1) in spans {
-            if x1 > x0 {
-                let c = |v: usize| v.min(1 << 20) as i64;
-                bbox_add(&mut sbox, c(x0), c(y), c(x1), c(y) + 1);
-            }
+        (_, col) => {
+            let mut cpane = cpar.slice_mut((0..pw - 1, 1..ph));
+            let mut zpane = zpar.slice_mut((0..pw - 1, 1..ph));
+            let mut c = cpane.slice_mut((pl..pl + bw, pt - 1..pt - 1 + bh));
+            let z = zpane.slice_mut((pl..pl + bw, pt - 1..pt - 1 + bh));
+            if col { draw!(&mut c) } else { draw!(&mut Framebuf { color_buf: c, depth_buf: z }) }
+        }
+    };
+    for (y, x0, x1) in spans {
+        if x1 > x0 {
+            let c = |v: usize| v.min(1 << 20) as i64;
+            bbox_add(&mut sbox, c(x0), c(y), c(x1), c(y) + 1);
         }
     }
     let mut tbox = [0i64; 5];
     let mut nan = 0;
-    for y in 0..bh {
-        for x in 0..bw {
-            let z = fb.depth_buf[[x, y]];
-            if z.is_nan() {
-                nan += 1;
-            }
-            if fb.color_buf[[x, y]] != sentw || z.to_bits() != 0 {
-                bbox_add(&mut tbox, x as i64, y as i64, x as i64 + 1, y as i64 + 1);
+    let mut outw = 0;
+    for y in 0..ph {
+        for x in 0..pw {
+            let z = zpar[[x, y]];
+            let touched = cpar[[x, y]] != sentw || z.to_bits() != 0;
+            if x >= pl && x < pl + bw && y >= pt && y < pt + bh {
+                if z.is_nan() {
+                    nan += 1;
+                }
+                if touched {
+                    let (wx, wy) = ((x - pl) as i64, (y - pt) as i64);
+                    bbox_add(&mut tbox, wx, wy, wx + 1, wy + 1);
+                }
+            } else if touched {
+                outw += 1;
             }
         }
     }
@@ -271,6 +340,7 @@ fn exec_safe(case: &Value) -> Value {
     o.insert("nan".into(), json!(nan));
     o.insert("sbox".into(), json!(sbox));
     o.insert("tbox".into(), json!(tbox));
+    o.insert("outw".into(), json!(outw));
     e
 }
 
@@ -339,8 +409,9 @@ fn gen_img(args: &Args, out: &mut dyn Write) {
         let sc = *rng.pick(&[0i64, 0, 0, -10, -16, 8]);
         // face culling: none / back faces (the default context) / front faces
         let cull = (i / 2) % 3;
+        let win = [0, 1, 0, 2][i % 4];
         writeln!(out, "{}", json!({"k": format!("i{}-{}", args.seed, i), "op": "img", "bw": bw, "bh": bh, "vp": vp,
-            "tris": tris, "kind": kind, "via": via, "sc": sc, "cull": cull})).unwrap();
+            "tris": tris, "kind": kind, "via": via, "sc": sc, "cull": cull, "win": win})).unwrap();
     }
 }
 
@@ -422,6 +493,7 @@ fn gen_safe(args: &Args, out: &mut dyn Write) {
         if let Some(rq) = rq {
             c["rq"] = json!(rq);
         }
+        c["win"] = json!([0, 0, 1, 2, 0][i % 5]);
         writeln!(out, "{c}").unwrap();
     }
 }
